@@ -1,12 +1,12 @@
 SPECIFICATION GSpec
 CONSTANTS
   NObj = 2
-  ObjType <- GenObjType
-  NSlot = 3
-  SlotType <- GenSlotTypeBDD
-  MaxExplicit = 1
+  ObjType <- GenObjTypeDD
+  NSlot = 2
+  SlotType <- GenSlotTypeBB
+  MaxExplicit = 0
   Policy <- GenPolicy
-  MemberTypes <- MembersNone
+  MemberTypes <- MembersDerived
 INVARIANTS TypeOK Conservation AliveIffReferenced NoDangling StaticTypes
 PROPERTIES GLastAgrees
 VIEW GView
